@@ -589,10 +589,9 @@ CONTRACTS += [
                   # number (ValueError otherwise) - the argument itself need not be one
                   'float': {'params': {'x': 'real'},
                             'ensures': {'value': ('toreal(result) == slope * x + intercept', ['__proof__'])},
-                            'raises': {'ValueError': ('not is_int_valued(slope * x + intercept)', ['__proof__'])},
-                            'may_raise': {'ValueError': ('True', ['__native__'])}}},
+                            'raises': {'ValueError': 'not is_int_valued(slope * x + intercept)'}}},
         returns='int',
-        ensures={'value_exact': ('result == slope * x + intercept and float(x).is_integer() or True', ['__native__'])},
+        ensures={'value_exact': ('result == slope * x + intercept', ['__native__'])},
         modifies=[],
         native={'gen': _gen_adjuster, 'build': _build_adjuster, 'call': 'xtce.encodings.DataEncoding._get_linear_adjuster'},
     ),
